@@ -199,6 +199,8 @@ def main(argv=None):
     print(f'{pid} tier={tier} seed={seed} cases={evaluations} distinct_nontrivial={len(nontrivial)} '
           f'wall={wall:.1f}s observed=' + json.dumps(dict(sorted(counters.items()))))
     if new_viol:
+        tags = Counter((v.get('facts') or {}).get('tag', '-') for v in new_viol)
+        print(f'  {len(new_viol)} violations by tag: {dict(tags)}')
         for v in new_viol[:5]:
             print(f'  violation: [{v["mech"]}] {v["what"][:800]}')
         print(f'VIOLATION property={pid} replay={replay_paths[0]}')
